@@ -234,6 +234,10 @@ impl SemaphoreState {
                     wait_node.task = Some(cx.waker().clone());
                     wait_node.state = PollState::Waiting;
                     self.waiters.add_front(wait_node);
+                    // This waiter had been removed from the queue when it
+                    // was notified. The permits which are left might satisfy
+                    // waiters that had been queued behind it.
+                    self.wakeup_waiters();
                     Poll::Pending
                 }
             }
